@@ -153,7 +153,7 @@ pub(crate) const fn distance(c1: anstyle::RgbColor, c2: anstyle::RgbColor) -> u3
     let b_delta = c1_b - c2_b;
 
     let r = (2 * 512 + r_sum) * r_delta * r_delta;
-    let g = 4 * g_delta * g_delta * (1 << 8);
+    let g = 4 * g_delta * g_delta * (1 << 9);
     let b = (2 * 767 - r_sum) * b_delta * b_delta;
 
     (r + g + b) as u32
